@@ -80,7 +80,7 @@ def check(ctx, chart, spec, ct, stage, lines, impl, metas):
                 continue
             cached_by_idx = {i: float(t) for i, t in pts}
             for i, cell in enumerate(col):
-                if num(cell) != cached_by_idx.get(i):
+                if isinstance(cell, str) or num(cell) != cached_by_idx.get(i):
                     fail("cell-vs-cache", f"series {j} {tag}: point {i} cached {cached_by_idx.get(i)!r} but cell of {ref} holds {cell!r}")
                     break
         # categories
@@ -102,7 +102,10 @@ def check(ctx, chart, spec, ct, stage, lines, impl, metas):
                 col = cells[len(lvls) - 1 - k]  # leaf level is the right-most column
                 for i, t in pts:
                     cell = col[i]
-                    ok = (cell == t) or (isinstance(cell, float) and t is not None and float(t) == cell) or (cell is None and (t or "") == "")
+                    try:
+                        ok = (cell == t) or (isinstance(cell, float) and t is not None and float(t) == cell) or (cell is None and (t or "") == "")
+                    except ValueError:
+                        ok = False
                     if not ok:
                         fail("category-cell-vs-cache", f"level {k} point {i}: cache {t!r}, cell {cell!r} ({ref})")
                         break
@@ -137,7 +140,20 @@ def correspond(ctx):
                 continue
             ctx.count("type-" + kind); ctx.count("series-%s" % ("wide" if len(spec["series"]) > 26 else "narrow"))
             check(ctx, chart, spec, ct, "add", lines, impl, metas)
-            if rng.random() < 0.5 and spec["series"]:
+            if kind != "cat" and spec["series"] and rng.random() < 0.5:
+                # the SAME chart-data object, grown, then used again
+                j = rng.randrange(len(spec["series"]))
+                for _ in range(rng.choice([1, 2, 3])):
+                    extra = (rng.randint(-9, 9), rng.randint(-9, 9)) + ((rng.randint(1, 9),) if kind == "bubble" else ())
+                    cd[j].add_data_point(*extra)
+                    spec["series"][j][1].append(extra)
+                try:
+                    chart.replace_data(cd)
+                    ctx.count("replace_data-same-object")
+                    check(ctx, chart, spec, ct, "replace-same-object", lines, impl, metas)
+                except Exception as e:  # noqa
+                    ctx.count("replace-raised(see C07)")
+            if rng.random() < 0.8 and spec["series"]:
                 if kind == "cat":
                     spec2, cd2 = lab.gen_cat_data(rng, n_series=(1 if "PIE" in ct.name else rng.choice([1, 2, 5])))
                 else:
